@@ -17,7 +17,8 @@ let nslots = 4
 let kind_s = function KDefault -> "D" | KCtor -> "C" | KAssign -> "A" | KDtor -> "X" | KRead -> "R" | KMove -> "M"
 let err_s = function ENewOnLive -> "new-on-live" | EDtorOnRaw -> "dtor-on-raw" | EAssignToRaw -> "assign-to-raw"
   | EReadRaw -> "read-raw" | ELeak -> "leak"
-let evs_s l = String.concat "," (List.map (fun (k, w) -> kind_s k ^ string_of_int (int_of_n w)) l)
+let pk = ref PkFull
+let evs_s l = let l = observed !pk l in String.concat "," (List.map (fun (k, w) -> kind_s k ^ string_of_int (int_of_n w)) l)
 let out_s = function OUnit -> "ok" | OBool b -> if b then "true" else "false"
   | OVal None -> "val=none" | OVal (Some v) -> "val=" ^ string_of_int (int_of_n v) | OStr -> "str"
 let dump s =
@@ -136,7 +137,9 @@ let () =
   Array.iteri (fun i a -> if i > 0 then match a with
     | "plain" -> full := false | "full" -> full := true
     | "old" -> fixed := false | "fixed" -> fixed := true
-    | "mvz0" -> mvz := false | "mvz1" -> mvz := true | _ -> ()) Sys.argv;
+    | "mvz0" -> mvz := false | "mvz1" -> mvz := true
+    | "pk=full" -> pk := PkFull | "pk=nodtor" -> pk := PkNoDtor | "pk=dtoronly" -> pk := PkDtorOnly | "pk=trivial" -> pk := PkTrivial
+    | _ -> ()) Sys.argv;
   try while true do
     let line = input_line stdin in
     let toks = List.filter (fun s -> s <> "") (String.split_on_char ' ' line) in
